@@ -54,7 +54,7 @@ def feature_cfgs(seed, tier):
                     "parameters": {"p": "x", "q": "%fn(\"a\", 1)% %env(\"HOME\", \"d\")% %envInt(\"N\", 3)%", "r": "%up()%", "t": "%todo(\"later\")%", "n": None, "f": 2.5},
                     "services": {"main": sv, "dep": {"value": "fmt.Value", "tags": ["tg"]}, "gh": {"constructor": "github.com/sub.NewB", "todo": False}, "td": {"todo": True}},
                     "decorators": [{"tag": "tg", "decorator": "al.Decorate", "arguments": ["%p%", 1]}, {"tag": "t2", "decorator": "Wrap", "arguments": ["@dep", "!tagged tg"]}]})
-    for lit in [cfggen.Raw(".inf"), cfggen.Raw("-.inf"), cfggen.Raw(".nan"), cfggen.Raw("1e300"), cfggen.Raw("-1e155"), cfggen.Raw("1e19"), cfggen.Raw("9.9e18"), cfggen.Raw("1.7976931348623157e308"), cfggen.Raw("5e-324"), cfggen.Raw("18446744073709551615"), cfggen.Raw("18446744073709551616")]:
+    for lit in [cfggen.Raw(".inf"), cfggen.Raw("-.inf"), cfggen.Raw(".nan"), cfggen.Raw("1e300"), cfggen.Raw("-1e155"), cfggen.Raw("1e19"), cfggen.Raw("9.9e18"), cfggen.Raw("1.7976931348623157e308"), cfggen.Raw("5e-324"), cfggen.Raw("-0.0"), cfggen.Raw("18446744073709551615"), cfggen.Raw("18446744073709551616")]:
         out.append({"parameters": {"p": lit}})
         out.append({"services": {"s": {"constructor": "NewA", "arguments": [lit]}}})
     for names in [{"pkg": "di", "container_type": "C", "container_constructor": "NewC"}, {"pkg": "main"}, {"container_type": "gontainer", "container_constructor": "NewIt"}]:
@@ -66,6 +66,18 @@ def run(tier, seed, replay):
     out, tooldir, env = common.setup("C01", tier, seed)
     common.proof_part(out, env, "C01", ties=["Tie/EnvTie.v"])
     cfgs = [("feature", c, 1) for c in feature_cfgs(seed, tier)]
+    # user-chosen identifiers equal to identifiers the generated file declares itself (special function names, locals of the constructor)
+    for what, c in [("container_constructor=init", {"meta": {"container_constructor": "init"}, "services": {"s": {"value": "Value"}}}),
+                    ("container_constructor=main", {"meta": {"container_constructor": "main"}, "services": {"s": {"value": "Value"}}}),
+                    ("container_type=rootGontainer", {"meta": {"container_type": "rootGontainer"}, "services": {"s": {"value": "Value"}}}),
+                    ("container_type=c", {"meta": {"container_type": "c"}, "services": {"s": {"value": "Value"}}}),
+                    ("constructor=newService", {"services": {"s": {"constructor": "newService"}}}),
+                    ("constructor=getParam", {"services": {"s": {"constructor": "getParam", "arguments": [1]}}}),
+                    ("constructor=callProvider", {"services": {"s": {"constructor": "callProvider"}}}),
+                    ("constructor=dependencyValue", {"services": {"s": {"constructor": "dependencyValue", "arguments": ["x"]}}}),
+                    ("function=getEnv", {"meta": {"functions": {"f": "getEnv"}}, "parameters": {"p": "%f(\"a\")%"}}),
+                    ("constructor=New(ok)", {"services": {"s": {"constructor": "New"}}})]:
+        cfgs.append(("template-ident:" + what, c, 1))
     for sp in common.random_specs(seed, 120 if tier == "quick" else 2500, "c01", inj_rate=0.0, nfiles_choices=(1, 1, 2, 3)):
         cfgs.append(("random", sp, 0))
     specs = []
@@ -116,6 +128,8 @@ def run(tier, seed, replay):
                 dist["compile_failures"] += 1
                 txt = "\n".join(lines)
                 key = "does-not-compile"
+                if specs[k]["what"][0].startswith("template-ident:"):
+                    key = "does-not-compile:" + specs[k]["what"][0]
                 if "undefined: Inf" in txt or "undefined: NaN" in txt:
                     key = "nonfinite-float-literal"
                 out.violation(key, "exit 0 but the written file does not compile (%s mode): %s" % ("stub" if stub else "normal", lines[:3]),
